@@ -275,6 +275,12 @@ PROPS = {
                 technique="deterministic simulation with a virtual CPU clock (basic-block counter seam); pump schedules along a doubling ladder x delivery schedules",
                 design_ref="DESIGN.md section 7 C08",
                 rule="28 pump patterns (header lines distinct/same/empty/folded/LF-CR/no-colon, spaces, chunk-size lines, chunk extension, empty lines, parameters in body and query, cookies, multipart parts and near-boundary lines, Content-Encoding tokens, pipelined transactions, interim 100 responses, CR/NUL junk, unexpected body lines, long values) x {whole, 1 byte per call, geometric chunks} x k = 64..8192 (16384 thorough), all personalities. A case = one (pattern, delivery, personality) ladder; evaluations = executions of libhtp."),
+    "C18": dict(flavor="san", level="fault_enumeration", registered=False,
+                claim="Fault enumeration over a seeded corpus: for each history the fault-free run counts K allocations (malloc/calloc/realloc/strdup made by libhtp, zlib and the bundled LZMA decoder, from htp_config_create to htp_config_destroy); then the run is repeated with the k-th allocation failing for every k <= K (quick: at most 1200 evenly spaced k per history), plus sustained-pressure runs in which every allocation from k on fails. Oracle: no ASan/UBSan report, every call returns, the per-call API contract keeps holding, teardown completes without double or invalid free.",
+                note="Leaks under an injected failure are counted, not raised (the statement does not promise leak-freedom under failure). The corpus is seeded, not exhaustive; within a history the enumeration over k is complete in the thorough tier.",
+                technique="deterministic simulation with allocation-failure injection at the allocator seam, enumerated over every allocation index of seeded histories",
+                design_ref="DESIGN.md section 7 C18",
+                rule="corpus entries: .t captures, CONNECT scripts, compressed responses (gzip, deflate, lzma, two layers) with cookies/credentials/query parameters, multipart uploads with file extraction, grammar exchanges; random configuration, optional gap/close/abort, per-tx hook registration, tx disposal. A case = (history, k); non-trivial = the injected failure was actually reached; distinct = distinct behaviour signature of the history."),
     "C03": dict(flavor="san", level="exploration",
                 claim="Differential simulation: the same seeded well-formed history is delivered under two segmentations of the simulated wire and everything the statement lists is compared; exhaustive single-cut sweeps for short histories are visited by consecutive run indices, the rest is seeded sampling.",
                 note="Domain is the CRLF grammar of DESIGN.md section 4 (bare-LF traffic is exercised only under the all-input properties); log messages, connection flags and return codes are not compared.",
@@ -320,6 +326,9 @@ def classify_crash(stderr_text, rc):
     m = re.search(r"ERROR: AddressSanitizer: ([\w-]+)", stderr_text)
     if m:
         kind = "asan." + m.group(1)
+        if m.group(1) == "attempting":
+            m2 = re.search(r"ERROR: AddressSanitizer: attempting ([\\w-]+)", stderr_text)
+            kind = "asan." + (m2.group(1) if m2 else "bad-free")
     elif "HANG phase=" in stderr_text or rc == 78:
         kind = "hang"
     elif rc is not None and rc < 0:
@@ -384,14 +393,17 @@ def run_search(exe, prop, seed, budget, outdir, workers, extra_args=()):
         if not ended:
             # the worker died inside a run: attribute it to the run index it had announced
             errtxt = open(os.path.join(outdir, "stderr-%d.txt" % pr["w"]), errors="replace").read() + out
+            sub = 0
             try:
-                idx = int(open(os.path.join(outdir, "cur-%d" % pr["w"])).read().strip())
+                parts = open(os.path.join(outdir, "cur-%d" % pr["w"])).read().split()
+                idx = int(parts[0])
+                sub = int(parts[1]) if len(parts) > 1 else 0
             except Exception:
                 idx = None
             oracle = classify_crash(errtxt, pr["p"].returncode)
             if idx is not None:
                 plan = os.path.join(outdir, "viol-%d.plan" % idx)
-                subprocess.run([exe, "emit", "--prop", prop, "--seed", str(seed), "--index", str(idx), "--out", plan])
+                subprocess.run([exe, "emit", "--prop", prop, "--seed", str(seed), "--index", str(idx), "--sub", str(sub), "--out", plan])
                 viols.append(dict(idx=idx, seed=None, oracle=oracle, hash="crash", plan=plan, detail=(errtxt.strip().splitlines() or [""])[-1][:300], crash=True))
                 shutil.copy(os.path.join(outdir, "stderr-%d.txt" % pr["w"]), os.path.join(outdir, "crash-%d.stderr" % idx))
                 agg["counters"]["worker_deaths"] = agg["counters"].get("worker_deaths", 0) + 1
@@ -511,7 +523,7 @@ def check_property(prop, tier, seed, replay=None):
     by_oracle = {}
     for v in sorted([v for v in viols if not v.get("machinery")], key=lambda v: v["idx"]):
         by_oracle.setdefault(v["oracle"], v)
-    for oracle, v in list(by_oracle.items())[:4]:
+    for oracle, v in list(by_oracle.items())[:int(os.environ.get('VERIF_MAX_REPORT', '4'))]:
         st, path, o, detail = gate_and_minimise(exe, prop, v, outdir)
         if st == "machinery":
             machinery.append(dict(oracle="machinery.gate", detail=detail))
